@@ -318,11 +318,40 @@ pub fn gen_nullable_web(rng: &mut Rng) -> (Cfg, Vec<u8>) {
     }
 }
 
+/// grammars whose difficulty is in the lexer: lexeme sets of several lexemes, lazy lexemes (alone, next to greedy
+/// ones, right after a greedy lexeme), single-byte lexemes after a greedy one, literals that are prefixes of each
+/// other, %ignore between and inside repetitions, intersections and complements
+pub fn lexer_families() -> Vec<(&'static str, Vec<&'static str>)> {
+    vec![
+        ("start: KW ID | ID\nKW: \"if\"\nID: /[a-z]+/\n", vec!["ifx", "if", "iffy", "i"]),
+        ("start: stmt+\nstmt: KW \" \" ID \";\" | ID \"=\" NUM \";\"\nKW: \"let\" | \"if\"\nID: /[a-z]+/\nNUM: /[0-9]+/\n", vec!["let x;y=12;", "if if;let=3;", "lets=1;"]),
+        ("start: A b \"!\"\nA: /a+/\nb[lazy]: /b+/\n", vec!["aab!", "ab!", "abb!"]),
+        ("start: x \"END\"\nx[lazy]: /[a-zE]*;/\n", vec!["ab;END", ";END", "E;END", "aE;;END"]),
+        ("start: (W | stop)+ \".\"\nW: /[a-z ]+/\nstop[lazy]: /[a-z]*!/\n", vec!["ab cd!ef!.", "a!.", "!.", "ab."]),
+        ("start: TEXT | code \"?\"\nTEXT: /[a-z;]+/\ncode[lazy]: /[a-z]+;/\n", vec!["ab;?", "ab;cd", "a;", "abc"]),
+        ("start: A \"(\" A \")\" B?\nA: /[a-z]+/\nB: /[0-9]/\n", vec!["foo(bar)7", "f(x)", "ab(c)"]),
+        ("start: (\"a\" | \"ab\" | \"abc\")+ \"!\"\n", vec!["aababc!", "abca!", "abab!"]),
+        ("start: W (\",\" W)*\nW: /[a-z]+/ | /[0-9]{1,3}/\n%ignore /[ \\t]+/\n", vec!["ab, 12 ,c", " a,b ", "1,\t2"]),
+        ("start: \"[\" (N (\",\" N)*)? \"]\"\nN: /-?[0-9]+/\n%ignore /\\s/\n", vec!["[1, -2,3 ]", "[ ]", "[12]"]),
+        ("start: T\nT: /[a-z]+/ & ~/if|in/\n", vec!["ifx", "i", "inn", "x"]),
+        ("start: A B\nA: /[ab]*a/\nB: /b[ab]*/ | \"c\"\n", vec!["abab", "ac", "aab", "bac"]),
+        ("start: S+\nS: /\"[^\"]*\"/ | /[a-z]+/\n%ignore \" \"\n", vec!["\"a b\" cd \"\"", "ab \"c\"", "\"\"\"\""]),
+        ("start: (A | B | C)+\nA: \"<\"\nB: \"<=\"\nC: /[a-z]/\n", vec!["<a<=b", "<<=", "a<"]),
+        ("start: X Y\nX: /x{2,4}/\nY: /x?y/\n", vec!["xxy", "xxxxxy", "xxxy"]),
+    ]
+}
+
 pub fn gen_case(rng: &mut Rng, idx: usize, thorough: bool) -> Value {
     let nc = corpus().len();
     let depth_budget = if thorough { 3000 } else { 1200 };
     if idx < nc { return json!({"kind": "corpus", "i": idx, "budget": depth_budget}); }
     if idx < nc + 7 { return json!({"kind": "param", "i": idx - nc, "budget": depth_budget}); }
+    let lf = lexer_families();
+    if idx >= nc + 7 && idx < nc + 7 + lf.len() {
+        // byte-level engine (M5) on grammars whose difficulty is in the lexer
+        let (g, guides) = &lf[idx - nc - 7];
+        return json!({"kind": "rows-any", "grammar": {"lark": g}, "guides": guides.iter().map(|s| crate::vocab::hex(s.as_bytes())).collect::<Vec<_>>(), "lexer_family": idx - nc - 7, "seed": rng.next() % 1_000_000_000});
+    }
     if idx % 5 == 4 {
         // Earley rows only: Lark grammars with regex lexemes and %ignore, JSON schemas (whitespace skip lexeme)
         let g = if rng.chance(1, 2) { crate::eng::gen_grammar(rng, idx).0.to_json() } else { json!({"json_schema": crate::c07::gen_root(rng)}) };
@@ -389,7 +418,9 @@ pub fn run_case(_ctx: &Ctx, case: &Value, tag: usize, rep: &mut Report, mb: &mut
         let Ok(world) = World::new(sb, eos, false, None) else { rep.skip("world"); return; };
         rep.count("family.rows-any");
         earley_tie(&world, &g, &[], case["seed"].as_u64().unwrap_or(3), tag, rep, mb);
-        crate::lx::lexer_tie(&world, &g, &[], case["seed"].as_u64().unwrap_or(3), tag, rep, mb);
+        let guides: Vec<Vec<u8>> = case["guides"].as_array().map(|a| a.iter().map(|t| vocab::unhex(t.as_str().unwrap_or(""))).collect()).unwrap_or_default();
+        if let Some(f) = case["lexer_family"].as_u64() { rep.count(&format!("case.lexer_family={f}")); }
+        crate::lx::lexer_tie(&world, &g, &guides, case["seed"].as_u64().unwrap_or(3), tag, rep, mb);
         rep.nontrivial(case["grammar"].to_string());
         return;
     }
